@@ -75,7 +75,9 @@ package packet
 //@   props C15 C07 C01 C16 C05 C11 C13 C19
 //@   ensures isptr(ret, rateLimitReadWriter) && asptr(ret, rateLimitReadWriter).ReadWriter == delegate && asptr(ret, rateLimitReadWriter).limiter == limiter
 
-// outer functions of sender and receiver: fresh channels, one worker goroutine each, bound to exactly these channels
+// outer functions of sender and receiver: fresh channels, one worker goroutine each, bound to exactly these channels;
+// the error streams have room for at least 100 pending errors (their sends are unguarded: after a cancellation the
+// consumer is gone, and an unbuffered stream would block the stage on its first error)
 //@ func NewSender
 //@   props C07 C01 C05 C11 C13 C15 C16 C19
 //@   ensures isptr(ret, sender) && asptr(ret, sender).w == w
@@ -84,10 +86,10 @@ package packet
 //@   ensures isptr(ret, receiver) && asptr(ret, receiver).sr == sr && asptr(ret, receiver).p == p
 //@ func (*sender).SendPackets
 //@   props C07 C12 C16 C19 C01 C05 C11 C13 C15
-//@   entry row start: [go (*sender).SendPackets$1{done: bind_d, errc: bind_e, in: bind_i, ctx: bind_c, s: bind_s2}] when ret0 == d && ret1 == e && i == in && c == ctx && s2 == s && d != e -> exit
+//@   entry row start: [go (*sender).SendPackets$1{done: bind_d, errc: bind_e, in: bind_i, ctx: bind_c, s: bind_s2}] when ret0 == d && ret1 == e && i == in && c == ctx && s2 == s && d != e && chancap(e) >= 100 -> exit
 //@ func (*receiver).ReceivePackets
 //@   props C20 C12 C16 C03 C06
-//@   entry row start: [go (*receiver).ReceivePackets$1{errc: bind_e, ctx: bind_c, r: bind_r2}] when ret == e && c == ctx && r2 == r -> exit
+//@   entry row start: [go (*receiver).ReceivePackets$1{errc: bind_e, ctx: bind_c, r: bind_r2}] when ret == e && c == ctx && r2 == r && chancap(e) >= 100 -> exit
 
 // the rate-limited socket reads straight from the wrapped socket: the method is the embedded one (no charge, no
 // delay, frames and errors unchanged)
